@@ -384,7 +384,7 @@ def rule_loaders(ck):
              o.fail('the %s come from a file read as strings and are never converted to float: every magnitude lookup / sum then fails or compares text' % nm))
         # region magnitudes are the same object
         o = ck.ob('C11-D5.regionmags', g, 'region magnitudes', r[0])
-        rk = kw(region, 'magnitudes') if isinstance(region, ast.Call) else None
+        rk = kw(region, 'magnitudes', 1) if isinstance(region, ast.Call) else None
         (o.ok() if rk is not None and u(rk) == u(mws) else o.fail('the region is built with other magnitudes than those returned'))
 
 
